@@ -73,7 +73,32 @@ pub struct LedgerCheck {
     pub id: &'static str,
 }
 
-pub const LEDGER_IDS: &[&str] = &["C02", "C03", "C04", "C05", "C06", "C11", "C51"];
+pub const LEDGER_IDS: &[&str] = &["C02", "C03", "C04", "C05", "C06", "C11", "C49", "C51"];
+
+/// C49: the limit kinds a probe can lower (one at a time), with the error each must raise.
+pub const LIMIT_KINDS: [(&str, &str); 8] = [
+    ("max_call_depth", "MaxCallDepthLimitReached"),
+    ("max_heap_substate_total_bytes", "HeapSubstateSizeExceeded"),
+    ("max_track_substate_total_bytes", "TrackSubstateSizeExceeded"),
+    ("max_substate_key_size", "MaxSubstateKeySizeExceeded"),
+    ("max_substate_value_size", "MaxSubstateSizeExceeded"),
+    ("max_invoke_input_size", "MaxInvokePayloadSizeExceeded"),
+    ("max_event_size", "EventSizeTooLarge"),
+    ("max_number_of_events", "TooManyEvents"),
+];
+
+fn limit_field(lp: &mut LimitParameters, kind: usize) -> &mut usize {
+    match kind {
+        0 => &mut lp.max_call_depth,
+        1 => &mut lp.max_heap_substate_total_bytes,
+        2 => &mut lp.max_track_substate_total_bytes,
+        3 => &mut lp.max_substate_key_size,
+        4 => &mut lp.max_substate_value_size,
+        5 => &mut lp.max_invoke_input_size,
+        6 => &mut lp.max_event_size,
+        _ => &mut lp.max_number_of_events,
+    }
+}
 
 pub fn static_id(id: &str) -> Option<&'static str> {
     LEDGER_IDS.iter().find(|x| **x == id).copied()
@@ -130,7 +155,7 @@ pub fn opts_for(fault: &Fault, system: bool) -> ExecOpts {
     let mut o = ExecOpts::default();
     o.system_tx = system;
     match fault {
-        Fault::None | Fault::Sweep | Fault::FeeProbe => {}
+        Fault::None | Fault::Sweep | Fault::FeeProbe | Fault::LimitProbe(_) => {}
         Fault::InjectAt(k) => o.inject_at = Some(*k),
         Fault::CostLimit(c) => o.cost_unit_limit = Some(*c),
         Fault::AbortOnRepay => o.abort_when_loan_repaid = true,
@@ -277,6 +302,141 @@ impl LedgerCheck {
         spec.build(&ctx.node.validator).ok().map(|e| (e, s))
     }
 
+    /// C49: per limit kind in `mask`, locate by bisection the smallest limit under which the
+    /// transaction still executes exactly as under the protocol limits, then check the threshold:
+    /// below it the transaction fails with that limit's error, at and above it the result is
+    /// identical; event count / size thresholds equal what the receipt shows. Nothing is committed.
+    fn limit_probe(&self, step: &LStep, exe: &ExecutableTransaction, ctx: &mut RunCtx, mask: u16) -> Result<(), Fail> {
+        let base = opts_for(&Fault::None, false);
+        ctx.stats.evaluations += 1;
+        let reference = match ctx.node.execute(exe, &base) {
+            Ok(r) => r,
+            Err(p) => return Err(("c11.engine_panicked".into(), format!("reference execution: {}", p))),
+        };
+        let TransactionResult::Commit(c0) = &reference.result else { return Ok(()) };
+        if !matches!(c0.outcome, TransactionOutcome::Success(_)) {
+            return Ok(());
+        }
+        ctx.stats.bump("limit.probed_transactions");
+        let mut fork = Rng::from_u64(prng::fnv64(exe.unique_hash().as_bytes()) ^ mask as u64);
+        for kind in 0..LIMIT_KINDS.len() {
+            if mask & (1 << kind) == 0 {
+                continue;
+            }
+            let (name, error) = LIMIT_KINDS[kind];
+            let default = *limit_field(&mut LimitParameters::babylon_genesis(), kind);
+            // Ok(true): identical result; Ok(false): failed with this limit's error
+            let mut run = |v: usize, ctx: &mut RunCtx| -> Result<bool, Fail> {
+                let mut o = base.clone();
+                let mut lp = LimitParameters::babylon_genesis();
+                *limit_field(&mut lp, kind) = v;
+                o.limit_parameters = Some(lp);
+                ctx.stats.evaluations += 1;
+                let r = match ctx.node.execute(exe, &o) {
+                    Ok(r) => r,
+                    Err(p) => return Err(("c11.engine_panicked".into(), format!("{} = {}: {}", name, v, p))),
+                };
+                if r.result == reference.result {
+                    return Ok(true);
+                }
+                let why = match &r.result {
+                    TransactionResult::Commit(c) => format!("{:?}", c.outcome),
+                    TransactionResult::Reject(rj) => format!("{:?}", rj.reason),
+                    TransactionResult::Abort(a) => format!("{:?}", a.reason),
+                };
+                let succeeded = matches!(&r.result, TransactionResult::Commit(c) if matches!(c.outcome, TransactionOutcome::Success(_)));
+                if succeeded {
+                    return Err(("c49.limit_changes_successful_result".into(), format!("step {:?}: with {} = {} the transaction still succeeds but with a different result than under the protocol limits", step, name, v)));
+                }
+                if !why.contains(error) {
+                    if why.contains("TransactionLimitsError") {
+                        return Err(("c49.wrong_limit_error".into(), format!("step {:?}: with only {} lowered to {} the transaction fails with {}", step, name, v, &why[..why.len().min(300)])));
+                    }
+                    // the limit error was swallowed / mapped by the code it interrupted: an observation, the threshold still counts
+                    ctx.stats.bump("probe.limit_error_surfaced_as_other_error");
+                }
+                Ok(false)
+            };
+            if !run(default, ctx)? {
+                return Err(("c49.fails_under_protocol_limit".into(), format!("step {:?}: {} at its protocol value {} fails", step, name, default)));
+            }
+            // smallest v with an identical result (monotonicity is then sampled)
+            let (mut lo, mut hi) = (0usize, default); // hi: ok
+            if run(0, ctx)? {
+                hi = 0;
+            } else {
+                while hi - lo > 1 {
+                    let mid = lo + (hi - lo) / 2;
+                    if run(mid, ctx)? {
+                        hi = mid;
+                    } else {
+                        lo = mid;
+                    }
+                }
+            }
+            let need = hi;
+            ctx.stats.bump(&format!("limit.threshold_located.{}", name));
+            ctx.stats.distinct.insert(prng::mix(prng::fnv64(name.as_bytes()), need as u64));
+            for _ in 0..3 {
+                if need > 0 {
+                    let v = fork.below(need as u64) as usize;
+                    if run(v, ctx)? {
+                        return Err(("c49.threshold_not_monotone".into(), format!("step {:?}: {} = {} gives the full result although {} = {} fails (threshold located at {})", step, name, v, name, need - 1, need)));
+                    }
+                }
+                if need < default {
+                    let v = need + 1 + fork.below((default - need) as u64) as usize;
+                    if !run(v, ctx)? {
+                        return Err(("c49.threshold_not_monotone".into(), format!("step {:?}: {} = {} fails although {} = {} gives the full result", step, name, v, name, need)));
+                    }
+                }
+            }
+            if need > 0 {
+                ctx.stats.bump("limit.failure_just_below_threshold");
+            }
+            // independent measures from the reference receipt. The limits apply to events emitted
+            // during execution; fee finalization appends (one DepositEvent per royalty recipient,)
+            // PayFeeEvents, the reward deposit and the burn afterwards. PayFeeEvent exists only there.
+            let first_pay = c0.application_events.iter().position(|(radix_engine_interface::prelude::EventTypeIdentifier(_, n), _)| n == "PayFeeEvent").unwrap_or(c0.application_events.len());
+            let n_exec = first_pay.saturating_sub(c0.fee_destination.to_royalty_recipients.len());
+            match kind {
+                7 => {
+                    let n = n_exec;
+                    if need != n {
+                        return Err(("c49.event_count_threshold".into(), format!("step {:?}: the transaction emits {} events but the smallest max_number_of_events under which it runs is {}", step, n, need)));
+                    }
+                }
+                6 => {
+                    let m = c0.application_events.iter().take(n_exec).map(|(_, d)| d.len()).max().unwrap_or(0);
+                    if need != m {
+                        return Err(("c49.event_size_threshold".into(), format!("step {:?}: the largest event payload has {} bytes but the smallest max_event_size under which it runs is {}", step, m, need)));
+                    }
+                }
+                4 => {
+                    // committed values can never be larger than the threshold
+                    let mut largest = 0usize;
+                    for (_, nu) in &c0.state_updates.by_node {
+                        let NodeStateUpdates::Delta { by_partition } = nu;
+                        for (_, pu) in by_partition {
+                            if let PartitionStateUpdates::Delta { by_substate } = pu {
+                                for (_, u) in by_substate {
+                                    if let DatabaseUpdate::Set(v) = u {
+                                        largest = largest.max(v.len());
+                                    }
+                                }
+                            }
+                        }
+                    }
+                    if largest > need {
+                        return Err(("c49.committed_value_above_threshold".into(), format!("step {:?}: a committed substate value has {} bytes but the transaction runs with max_substate_value_size = {}", step, largest, need)));
+                    }
+                }
+                _ => {}
+            }
+        }
+        Ok(())
+    }
+
     /// C06: learn the total cost T with a generous lock on the dedicated payer, then probe locks
     /// of exactly T and T -/+ a few attos. Nothing is committed.
     fn fee_probe(&self, cfg: &LCfg, step: &LStep, ctx: &mut RunCtx) -> Result<(), Fail> {
@@ -381,6 +541,9 @@ impl LedgerCheck {
         if self.id == "C06" && step.fault == Fault::FeeProbe && !system {
             self.fee_probe(cfg, step, ctx)?;
         }
+        if let (Fault::LimitProbe(mask), "C49", false) = (&step.fault, self.id, system) {
+            self.limit_probe(step, &exe, ctx, *mask)?;
+        }
         ctx.stats.evaluations += 1;
         let receipt = match ctx.node.execute(&exe, &opts) {
             Ok(r) => r,
@@ -418,6 +581,7 @@ impl LedgerCheck {
                 Fault::None => "fault.none",
                 Fault::Sweep => "fault.sweep",
                 Fault::FeeProbe => "fault.fee_probe",
+                Fault::LimitProbe(_) => "fault.limit_probe",
                 Fault::InjectAt(_) => {
                     if injection_fired(&receipt) {
                         "fault.inject_costing_error_fired"
@@ -529,6 +693,7 @@ impl World for LedgerCheck {
             "C05" => "Every scan_every commits and at run end: the repository's KernelDatabaseChecker and SystemDatabaseChecker (with role-assignment, royalty and resource application checkers) over the whole store, plus an own ownership pass (every stored internal node owned exactly once, no global node owned, stored values reference only global nodes). evaluations = engine executions; distinct = distinct (state-updates digest, outcome class).",
             "C06" => "Most fees are locked on a dedicated payer account (it does nothing else, so its vault change is exactly the payment), with 1-2 locks mixing contingent and non-contingent, amounts below/around/above the need, tips over the whole Percentage(u16) and BasisPoints(u32) ranges, and in half the runs overridden costing parameters (unit prices with 18 significant decimals, USD and storage prices). For every commit: paid == execution+finalization+tip+storage+royalties == proposer+validator set+burn+royalties, cost == units x price, tip within truncation bounds, proposer/validator shares (tips 100% proposer; network fees 25/25/50) within 2 attos, rewards vault delta, burn event, dedicated payer vault delta == reported payment (refund in full), contingent-only vault untouched on failure, cost units within limits. Fee probes: total cost T learned with a generous lock, then locks of exactly T and T -/+ {1, 1e3, 1e9} attos are executed (no commit): each must be a consistent commit or a reject; a panic of the executor's fee sanity assertions is the violation. Oracle arithmetic in BigInt attos. evaluations = engine executions; distinct = distinct (state-updates digest, outcome class).",
             "C51" => "Model-free history invariant: for every commit each updated substate is compared with its pre-state; a substate whose stored lock status is Locked (object fields, key-value entries incl. metadata entries and non-fungible tombstones) or an owner role whose updater is None must be rewritten byte-identically or not at all. The workload locks metadata keys and owner roles (resources are created with Fixed or Updatable owner roles) and then every party - the owner included - keeps issuing set / lock / set-owner / mint / burn calls against them, with injected faults. evaluations = engine executions; distinct = distinct (state-updates digest, outcome class).",
+            "C49" => "The workload additionally sets metadata entries with keys of 1..2000 and values of 0..100000 characters and issues up to 90 transfers per manifest. For sampled user transactions (F6, one limit at a time) two or three of the limits max_call_depth, max_heap_substate_total_bytes, max_track_substate_total_bytes, max_substate_key_size, max_substate_value_size, max_invoke_input_size, max_event_size, max_number_of_events are probed: the smallest value under which the transaction executes exactly as under the protocol limits is located by bisection; one below it the transaction must fail (with that limit's TransactionLimitsError unless the interrupted code maps it), at it and at 3 sampled larger values the result must be identical, 3 sampled smaller values must fail (monotone threshold); the event-count and event-size thresholds must equal what the receipt shows (execution-phase events), no committed substate value may be larger than the value-size threshold; a successful but different result under a lowered limit is a violation. Nothing probed is committed. evaluations = engine executions; distinct = distinct (limit kind, threshold) pairs + (state-updates digest, outcome class).",
             "C11" => "Every execution runs under catch_unwind with a recording panic hook; a panic or a NativeRuntimeError::Trap is the violation. evaluations = engine executions; distinct = distinct (state-updates digest, outcome class).",
             _ => "",
         };
@@ -572,6 +737,21 @@ impl World for LedgerCheck {
             "C51" => v.extend(["c51.locked_substates_rewritten_identically", "c51.newly_locked_substates", "c51.update_of_locked_state_refused", "ok.LockMetadata", "ok.LockOwnerRole", "ok.SetOwnerRole"]),
             "C06" => v.extend(["c06.commits_checked", "c06.dedicated_payer_commits", "c06.tipped_commits", "probe.contingent_lock_on_failed_tx", "probe.fee_probes", "probe.reject_with_lock_below_cost", "probe.commit_with_lock_at_or_above_cost", "probe.commit_with_lock_below_reference_cost"]),
             "C05" => v.extend(["scan.c05_full_scans"]),
+            "C49" => v.extend([
+                "limit.probed_transactions",
+                "limit.failure_just_below_threshold",
+                "limit.threshold_located.max_call_depth",
+                "limit.threshold_located.max_heap_substate_total_bytes",
+                "limit.threshold_located.max_track_substate_total_bytes",
+                "limit.threshold_located.max_substate_key_size",
+                "limit.threshold_located.max_substate_value_size",
+                "limit.threshold_located.max_invoke_input_size",
+                "limit.threshold_located.max_event_size",
+                "limit.threshold_located.max_number_of_events",
+                "ok.BigMetadata",
+                "notok.BigMetadata",
+                "ok.MultiTransfer",
+            ]),
             _ => {}
         }
         v
@@ -598,7 +778,12 @@ impl World for LedgerCheck {
             allow_freezable: !matches!(self.id, "C04" | "C05" | "C02") || rng.chance(1, 2),
             payer_fees: self.id == "C06",
             royalties: if self.id == "C06" { rng.range(1, 3) as u32 } else { rng.range(0, 2) as u32 },
+            big_payloads: self.id == "C49",
         };
+        let mut weights = weights;
+        if self.id == "C49" {
+            weights.metadata = rng.range(2, 5) as u32;
+        }
         // C06: costing parameter swarm - protocol values, or prices with many significant decimals
         let costing = if self.id == "C06" && rng.chance(1, 2) {
             let price = |rng: &mut Rng, protocol: &str| -> String {
@@ -671,6 +856,14 @@ impl World for LedgerCheck {
                 }
                 if cfg.fee_probe_permille > 0 && rng.below(1000) < cfg.fee_probe_permille as u64 && !matches!(s.body, Body::Round { .. } | Body::Restart) {
                     s.fault = Fault::FeeProbe;
+                }
+                if self.id == "C49" && !matches!(s.body, Body::Round { .. } | Body::Restart) && rng.chance(1, 6) {
+                    // two or three of the eight limit kinds per probed transaction
+                    let mut mask = 0u16;
+                    for _ in 0..rng.range(2, 3) {
+                        mask |= 1 << rng.below(LIMIT_KINDS.len() as u64);
+                    }
+                    s.fault = Fault::LimitProbe(mask);
                 }
                 Some(s)
             });
